@@ -101,6 +101,7 @@ const traceSet = "faccessat,openat,write,close,rename,renameat,renameat2,mkdir,m
 
 var lineRe = regexp.MustCompile(`^(\d+)\s+([a-z0-9_]+)\((.*)$`)
 var retRe = regexp.MustCompile(`\)\s+= (\S+)`)
+var resumedRe = regexp.MustCompile(`^(\d+)\s+<\.\.\. ([a-z0-9_]+) resumed>(.*)$`)
 var quotedRe = regexp.MustCompile(`"((?:[^"\\]|\\.)*)"`)
 
 // parseTrace extracts, for the thread that issued the begin marker, the
@@ -124,9 +125,30 @@ func parseTrace(trace string, dataDir string) (ops []sysop, sawBegin, sawEnd boo
 	counts := map[string]int{}
 	fdName := map[string]string{}
 	inside := false
+	// strace splits a call into "<unfinished ...>" / "<... name resumed>" when
+	// another thread's event arrives in between: join the two halves
+	var joined []string
+	pendingAt := -1
 	for _, l := range lines {
+		if m := resumedRe.FindStringSubmatch(l); m != nil {
+			if m[1] == tid && pendingAt >= 0 {
+				joined[pendingAt] = strings.Replace(joined[pendingAt], " <unfinished ...>", "", 1) + m[3]
+				pendingAt = -1
+			}
+			continue
+		}
 		m := lineRe.FindStringSubmatch(l)
 		if m == nil || m[1] != tid {
+			continue
+		}
+		joined = append(joined, l)
+		if strings.Contains(l, "<unfinished ...>") {
+			pendingAt = len(joined) - 1
+		}
+	}
+	for _, l := range joined {
+		m := lineRe.FindStringSubmatch(l)
+		if m == nil {
 			continue
 		}
 		name, rest := m[2], m[3]
@@ -469,6 +491,11 @@ func runScenario(c *vh.Ctx, col *collector, sc scenario, work, dataDir string, r
 	if clean.Out.Panicked != "" {
 		r.do(func() { c.Fail("routine-panicked", sc.Name+": "+clean.Out.Panicked, sc) })
 	}
+	if sc.Routine == "sleep" && sc.Init.Dir && len(script) == 0 {
+		// the requested transition does not apply in this state: nothing is saved, nothing to crash
+		r.do(func() { c.Count("sleep/transition-not-applicable") })
+		return
+	}
 	r.do(func() { c.Count("scenario/" + sc.Routine) })
 	r.do(func() { c.Count(fmt.Sprintf("script-length/%d", len(script))) })
 	r.do(func() { col.addRun(c, sc, script, clean.Out, final) })
@@ -556,6 +583,9 @@ func decodeFile(s snapshot, name string) (string, bool) {
 }
 
 func monitorCompleted(c *vh.Ctx, sc scenario, o *helperOut, final snapshot) {
+	if !o.OK && sc.Routine == "sleep" && (o.Err == sleep.ErrAlreadySleeping.Error() || o.Err == sleep.ErrNotSleeping.Error()) {
+		return // the requested transition does not apply in this state: nothing is saved
+	}
 	if !o.OK {
 		c.Fail("start-fails", fmt.Sprintf("%s: %s on a directory no crash was involved in: %s", sc.Name, o.Routine, o.Err), sc)
 		return
